@@ -15,19 +15,33 @@ import copy
 import json
 
 import common
+import pyfacts
 import resolvegen
 import resolvelib as rl
 
 ID = 'C05'
-LEAN_MODULES = ['Yaql.Props.C05', 'Yaql.Props.C05Hist']
+LEAN_MODULES = ['Yaql.Props.C05', 'Yaql.Props.C05Hist', 'Yaql.Props.C05Sig', 'Yaql.Props.C05SigGen']
 P = 'Yaql.Props.C05.'
 REQUIRED_THEOREMS = [P + n for n in (
     'resolve_eq_spec', 'unknown_iff', 'first_layer_wins', 'most_specific', 'no_matching_iff', 'kind_filter',
     'constants_prechecked', 'hidden_transparent', 'skipped_needs_default', 'star_absorbs')] + [
     'Yaql.Props.C05Hist.' + n for n in (
         'collectAtP_refines', 'resolveAt_eq_layers', 'resolveIn_eq', 'resolveIn_eq_spec', 'resolve_history_independent',
-        'register_elsewhere_invisible', 'delete_elsewhere_invisible', 'family_plain')]
+        'register_elsewhere_invisible', 'delete_elsewhere_invisible', 'family_plain')] + [
+    'Yaql.Props.C05Sig.' + n for n in (
+        'define_sound', 'define_complete', 'defaults_complete', 'mandatory_stay_mandatory', 'define_perm',
+        'define_perm_find', 'Ex.kwonly_elif_drops_default')] + [
+    'Yaql.Props.C05SigGen.stdlib_tables_follow_signatures', 'Yaql.Props.C05SigGen.stdlib_rows_nonempty']
+
+
+def generate():
+    return pyfacts.run(['SigTable'])['SigTable']
 TRUSTED = ['python dict/set semantics modelled as association lists',
+           'resolvelib.expected_fd: transcription of the documented signature -> FunctionDefinition rules '
+           '(extending_yaql.rst: parameter declaration, automatic parameters, hidden parameters, naming conventions)',
+           'ctxrecord.Forest: the record of the contexts built (plain / MultiContext / LinkedContext) and of the '
+           'registrations; exclusivity is per (context, name)',
+           'harness/gens/sigtable.py: inspect.signature of every stdlib payload next to its FunctionDefinition',
            'resolvelib.enc_fd / enc_arg: the encoding of real FunctionDefinition and expression objects for the model',
            'resolvelib.spec_resolve: transcription of the written rules',
            'resolvelib.History: the record of what register_function / delete_function / create_child_context were told '
